@@ -26,7 +26,14 @@ subgraphs and functions (one flat graph per model), graph outputs and initialize
 use lists of values (`Value.uses()` is computed from the inputs of all nodes of the heap, which
 is what the use lists contain in every state reachable through the public API).
 `None` and `""` names are both represented by `""` (every check in the anchored code is
-`if not name`).  Only core Lean is imported (linked into `irdriver`).
+`if not name`).  The serialization round trip is modelled only as far as the annotations depend on
+it: resolution of value and configuration names through the deserializer's scopes, the IR-version
+gate, trailing unnamed outputs; value shapes are assumed to survive (every value carries a type).
+
+Besides the operations the file holds the operation alphabet (`Op`, `step`, `run`), the invariant
+`DevOK` / `Named` and the in-alphabet condition `Pre` as decidable propositions: the driver
+evaluates them after every operation and the harness compares them with its own evaluation of the
+same facts on the real objects.  Only core Lean is imported (linked into `irdriver`).
 -/
 namespace IrVerif.Device
 
@@ -574,29 +581,43 @@ def deserNodes (w : World) (known : List (String × CId)) :
 /-- the configurations that reach the proto: none below IR version 11 -/
 def rtRegs (ms : ModelS) : List CId := if 11 ≤ ms.irVersion then ms.cfgs else []
 
+/-- ids of the `ModelConfiguration` objects `deserialize_model` creates -/
+def rtNewCfgs (w : World) (ms : ModelS) : List CId := List.range' w.cfgs.length (rtRegs ms).length
+
+/-- `known_configs = {config.name: config}` of `_resolve_node_device_configurations` (last wins) -/
+def rtKnown (w : World) (ms : ModelS) : List (String × CId) :=
+  (((rtRegs ms).map (fun c => (w.cfg c).name)).zip (rtNewCfgs w ms)).reverse
+
+/-- ids of the graph-input values `_deserialize_graph` creates -/
+def rtNewIns (w : World) (ms : ModelS) : List VId := List.range' w.values.length ms.inputs.length
+
+/-- `values = {v.name: v for v in inputs}` (last wins) -/
+def rtScope0 (w : World) (ms : ModelS) : Scope :=
+  ((ms.inputs.map (fun v => (w.value v).name)).zip (rtNewIns w ms)).reverse
+
+/-- the world after the model configurations and the graph inputs have been created -/
+def rtWorld0 (w : World) (ms : ModelS) : World :=
+  { w with cfgs := w.cfgs ++ (rtRegs ms).map w.cfg, values := w.values ++ ms.inputs.map w.value }
+
+/-- what `_deserialize_node` sees of every node: inputs, non-trailing outputs, device protos -/
+def rtPairs (w : World) (ms : ModelS) (protos : List (List PCfg)) : List (NodeS × List PCfg) :=
+  (ms.nodes.map (fun n => { (w.node n) with outputs := serOutputs w (w.node n) })).zip protos
+
+def rtFinish (w3 : World) (newm : ModelS) : World := { w3 with models := w3.models ++ [newm] }
+
 /-- `deserialize_model` of the serialized model, restricted to what the annotations depend on;
     `protos` are the serialized `device_configurations` of the nodes; `none` = raises.
     Object creation order: configurations, graph inputs, all declared node outputs, then per node
     unknown inputs, anonymous outputs, placeholder values and placeholder configurations. -/
 def deserModel (w : World) (m : MId) (protos : List (List PCfg)) : Option World :=
   let ms := w.model m
-  -- model configurations (dropped below IR version 11)
-  let regs := rtRegs ms
-  let w1 : World := { w with cfgs := w.cfgs ++ regs.map w.cfg }
-  let newCfgs := List.range' w.cfgs.length regs.length
-  let known := ((regs.map (fun c => (w.cfg c).name)).zip newCfgs).reverse
-  -- graph inputs: `values = {v.name: v for v in inputs}`
-  let w2 : World := { w1 with values := w1.values ++ ms.inputs.map w.value }
-  let newIns := List.range' w.values.length ms.inputs.length
-  let sc0 : Scope := ((ms.inputs.map (fun v => (w.value v).name)).zip newIns).reverse
-  match declareOutputs w (w2, sc0) ((ms.nodes.map (fun n => serOutputs w (w.node n))).flatten) with
+  match declareOutputs w (rtWorld0 w ms, rtScope0 w ms)
+      ((ms.nodes.map (fun n => serOutputs w (w.node n))).flatten) with
   | none => none
   | some st =>
-    let r := deserNodes w known st
-      ((ms.nodes.map (fun n => { (w.node n) with outputs := serOutputs w (w.node n) })).zip protos) []
-    let w3 := r.1
-    some { w3 with models := w3.models ++
-      [{ inputs := newIns, nodes := r.2, cfgs := newCfgs, irVersion := ms.irVersion }] }
+    let r := deserNodes w (rtKnown w ms) st (rtPairs w ms protos) []
+    some (rtFinish r.1 { inputs := rtNewIns w ms, nodes := r.2, cfgs := rtNewCfgs w ms,
+                         irVersion := ms.irVersion })
 
 /-- `deserialize_model(parse(serialize_model(model).SerializeToString()))` -/
 def roundTrip (w : World) (m : MId) : World × Res :=
